@@ -241,6 +241,17 @@ func helperReadMessageRules(c *Ctx, prop string) {
 		}
 		return fold.Tuple{h, fold.Nil{}}
 	}
+	// whenever the payload is pulled through the Reader, the Reader still reads the connection
+	// itself: a layer in between that reads ahead keeps bytes of the next message when it is dropped
+	stillOnSource := func(mm *fold.Machine, v fold.Val) {
+		if o, ok := isObjRefAny(v); ok {
+			if st, ok := mm.Load(fold.Ref{O: o}).(fold.Struct); ok && len(st.F) > L.source {
+				if got := fold.Show(st.F[L.source]); got != "r" {
+					cfgProblems = append(cfgProblems, "the payload is read while Reader.Source is "+got+", not the connection r: what that layer read ahead is lost with it")
+				}
+			}
+		}
+	}
 	readAll := func(cl *fold.Call) fold.Val {
 		cl.M.Emit(fold.Effect{Kind: "call", Name: "ReadAll", Args: cl.Args})
 		return fold.Tuple{fold.SymSeq{Name: "ctl-bts", Len: fold.Int{Lo: 0, Hi: fold.MaxInt64}}, errChoice(cl.M, "readall.err", "readall-error")}
@@ -249,10 +260,12 @@ func helperReadMessageRules(c *Ctx, prop string) {
 	m.Models["io.ReadAll"] = readAll
 	m.Models["io.ReadFull"] = func(cl *fold.Call) fold.Val {
 		cl.M.Emit(fold.Effect{Kind: "call", Name: "ReadFull", Args: cl.Args})
+		stillOnSource(cl.M, cl.Args[0])
 		return fold.Tuple{fold.Int{Lo: 0, Hi: fold.MaxInt64}, errChoice(cl.M, "readfull.err", "readfull-error")}
 	}
 	m.Models["(*bytes.Buffer).ReadFrom"] = func(cl *fold.Call) fold.Val {
 		cl.M.Emit(fold.Effect{Kind: "call", Name: "Buffer.ReadFrom", Args: cl.Args})
+		stillOnSource(cl.M, cl.Args[1])
 		return fold.Tuple{fold.Int{Lo: 0, Hi: fold.MaxInt64}, errChoice(cl.M, "readfrom.err", "readfrom-error")}
 	}
 	m.Models["(*bytes.Buffer).Bytes"] = func(cl *fold.Call) fold.Val {
@@ -389,6 +402,7 @@ func helperNextReaderRules(c *Ctx, prop string) {
 		return
 	}
 	m := c.machine()
+	m.OpaqueOK = true // whatever else is called: what matters is the Reader that read the header and what is handed back
 	var problems []string
 	var rdObj *fold.Obj
 	m.Models["(*"+wsutil+".Reader).NextFrame"] = func(cl *fold.Call) fold.Val {
